@@ -595,36 +595,10 @@ MAP_REBUILD_OPS = {"mrem", "mupd", "mfil", "mpar", "mcun", "muni", "mmrg"}
 
 
 def classify(ops, i, kind, impl_ans, model_ans, end, pre):
-    """-> finding id or None.  A failure is only ever attributed to a known finding if the model
-    (a transcription of the unchanged std source) predicts exactly the implementation's answer."""
-    if impl_ans != model_ans:
-        return None
-    t = ops[i].split(" ")
-    op = t[0]
-    shapes = pre[i] if i < len(pre) else {}
-    E = ("E",)
-    if op in ("mmax", "smax"):
-        is_map = op == "mmax"
-        tr = shapes.get(t[1], E)
-        if tr[0] == "N" and tree_parts(tr, is_map)[3][0] == "N":
-            return "C18-F1"
-    if op in ("many", "sany"):
-        tr = shapes.get(t[1], E)
-        if impl_ans == "true" and has_empty_subtree(tr, op == "many"):
-            return "C18-F2"
-    if op in MAP_REBUILD_OPS and impl_ans == "panic" and end == "panic:Bad tree":
-        return "C18-F3"
-    if op == "srem" and kind == "store":
-        tr = shapes.get(t[2], E)
-        n = find_node(tr, int(t[3]), False)
-        if n is not None and n[0] == "N" and (n[3][0] == "E" or n[4][0] == "E"):
-            return "C18-F4"
-    if op == "sdif" and kind == "store" and shapes.get(t[2], E)[0] != "E":
-        return "C18-F5"
-    if op == "mmrg" and impl_ans == "panic" and end == "panic:Invalid state":
-        return "C18-F7"
-    if op == "smap" and t[3] != "0":
-        return "C18-F8"
+    """-> finding id or None.  All std findings (C18-F1..F7, F9) are fixed by `fix:` commits; a fixed
+    entry suppresses nothing, so no oracle failure is attributed to a known finding any more (a
+    regression of one of them is a VIOLATION).  The only open finding, C18-F10, is a TypeScript-only
+    difference and is matched in `examine`."""
     return None
 
 
@@ -722,7 +696,7 @@ def gen_history(rng, nops, mode, weights):
     return ops
 
 
-W_MAP = [("mins", 22), ("mbulk", 6), ("mrem", 12), ("mget", 6), ("mhas", 3), ("mupd", 8),
+W_MAP = [("mins", 22), ("mbulk", 6), ("mrem", 12), ("mget", 6), ("mhas", 3), ("mupd", 8), ("muni", 4), ("mcun", 4),
          ("mmrg", 3), ("mspl", 4), ("mfil", 4), ("mpar", 3), ("mfold", 2), ("mmin", 3), ("mmax", 3), ("msize", 2),
          ("ment", 3), ("mkeys", 1), ("mmap", 1), ("mall", 1), ("many", 1)]
 W_SET = [("sins", 22), ("sbulk", 6), ("srem", 12), ("shas", 6), ("suni", 5), ("sint", 4), ("sdif", 4), ("ssub", 3),
@@ -815,9 +789,6 @@ def canon_impl(h, run):
 def examine(ctx, h, res, model, label, stats, report=True):
     """Checks one executed history.  Returns list of (finding_id or None, index, msg)."""
     verdicts = []
-    if res["compile"] == "panic" and "Option::unwrap()" in res.get("msg", "") and any(l.startswith(("muni ", "mcun ")) for l in h):
-        verdicts.append(("C18-F9", next(i for i, l in enumerate(h) if l.startswith(("muni ", "mcun "))), "compiler panics on a program that calls Map.union/customizedUnion: " + res.get("msg", "")[:200]))
-        return verdicts
     if res["compile"] != "ok":
         verdicts.append((None, 0, f"driver program does not compile ({res['compile']}): {res.get('msg', '')[:300]}"))
         return verdicts
@@ -866,18 +837,7 @@ def shrink(ctx, h, want_msg_kind):
 
 
 PROBES = {
-    "C18-F1": ["mins m0 m0 1 10", "mins m0 m0 2 20", "mins m0 m0 3 30", "mins m0 m0 4 40", "mmax m0"],
-    "C18-F2": ["many m0 all 0", "sany s0 all 0", "mins m0 m0 1 1", "mins m0 m0 2 2", "many m0 non 0"],
-    "C18-F3": ["mins m0 m0 10 0", "mins m0 m0 2 0", "mins m0 m0 5 0", "mins m0 m0 11 0", "mins m0 m0 4 0",
-               "mins m0 m0 7 0", "mrem m1 m0 5"],
-    "C18-F4": ["sins s0 s0 1", "sins s0 s0 2", "srem s1 s0 2"],
-    "C18-F5": ["sins s0 s0 1", "sdif s2 s0 s1"],
-    "C18-F7": ["mins m0 m0 1 1", "mins m0 m0 2 2", "mins m1 m1 10 0", "mins m1 m1 20 0", "mins m1 m1 30 0",
-               "mins m1 m1 40 0", "mmrg m2 m0 m1 0"],
-    "C18-F9": ["mins m0 m0 1 1", "mins m1 m1 2 2", "muni m2 m0 m1"],
-    "C18-F9b": ["mins m0 m0 1 1", "mins m1 m1 2 2", "mcun m2 m0 m1 0"],
     "C18-F10": ["sins s0 s0 1", "smin s0"],
-    "C18-F8": ["sins s0 s0 1", "sins s0 s0 2", "sins s0 s0 3", "sins s0 s0 4", "sins s0 s0 5", "smap s1 s0 1 0"],
 }
 
 
@@ -996,8 +956,8 @@ def run(ctx):
     ])
 
 
-PENDING = ["remove_refines (Map) beyond remove_partial", "split/join/concat/union/merge/filter/partition refinement (Map)",
-           "Set refinement theorems (only counterexamples + min/size/elements so far)"]
+PENDING = ["Map.customizedUnion/union/merge/update refinement", "Set refinement theorems beyond size/elements",
+           "ops_refine for histories mixing all operations"]
 
 
 def replay(ctx, path):
